@@ -3,6 +3,8 @@ package sim
 import (
 	"berty.tech/go-orbit-db/stores/operation"
 	"context"
+
+	"berty.tech/go-orbit-db/events"
 	"fmt"
 	"regexp"
 	"runtime"
@@ -879,4 +881,131 @@ func scenC18Sibling(k *K) {
 	for _, p := range peers {
 		k.StopPeer(p)
 	}
+}
+
+func init() {
+	Register(&Scenario{Prop: "C18", Name: "legacy-subscribers-leave", Run: scenC18Legacy, Weight: 1,
+		Rule: "one instance, one store; 1-3 subscribers of the deprecated channel API (Subscribe / GlobalChannel) each give up (cancel their context) 0-12 scheduling points after subscribing, or later, after 0-40 events went through a channel they read slowly or not at all (so that the buffering goroutines are anywhere between taking an event and waiting for the next); writes go on meanwhile; then the store and the instance are closed; oracle: 15 virtual seconds later every such channel has been closed and no goroutine created in go-orbit-db packages is left in the bubble; non-trivial = at least one subscriber gave up while its buffering goroutines were running (not yet waiting)"})
+}
+
+func scenC18Legacy(k *K) {
+	P, err := k.StartPeer(k.W.AddNode())
+	if err != nil {
+		panic(abortPanic{err.Error()})
+	}
+	typ := []string{"keyvalue", "eventlog", "docstore"}[k.C.Intn(3)]
+	op := k.Do(0, "create", 50, func() (interface{}, error) {
+		ctx, cancel := OpCtx(time.Minute)
+		defer cancel()
+		return P.DB.Create(ctx, "db", typ, nil)
+	})
+	if !op.Done || op.Err != nil {
+		panic(abortPanic{fmt.Sprint(op.Err)})
+	}
+	st := op.Val.(iface.Store)
+	legacy := st.(events.EmitterInterface)
+	type lsub struct {
+		ch     <-chan events.Event
+		cancel context.CancelFunc
+		name   string
+	}
+	var subs []*lsub
+	early := 0
+	wseq := 0
+	write := func() {
+		wseq++
+		val := fmt.Sprintf("w%d", wseq)
+		k.Do(0, "write "+val, 20, func() (interface{}, error) {
+			ctx, cancel := OpCtx(time.Minute)
+			defer cancel()
+			return c09Write(ctx, st, val)
+		})
+	}
+	for i, m := 0, k.C.Range(1, 3); i < m; i++ {
+		ctx, cancel := context.WithCancel(context.Background())
+		k.cleanups = append(k.cleanups, func() { cancel() })
+		s := &lsub{cancel: cancel, name: fmt.Sprintf("subscriber-%d", i)}
+		global := i == 1 && k.C.Chance(1, 2)
+		mode := k.C.Intn(3) // 0: gives up a few scheduling points after subscribing; 1: after some events, never reading; 2: after some events, reading a few
+		yields := k.C.Intn(13)
+		sop := k.Go(0, s.name, func() (interface{}, error) {
+			if global {
+				s.ch = legacy.GlobalChannel(ctx)
+			} else {
+				s.ch = legacy.Subscribe(ctx)
+			}
+			if mode == 0 {
+				for j := 0; j < yields; j++ {
+					runtime.Gosched()
+				}
+				cancel()
+			}
+			return nil, nil
+		})
+		k.Wait()
+		if !k.IsDone(sop) {
+			k.Failf("C18/legacy-subscribe-hang", "%s did not return", s.name)
+		}
+		subs = append(subs, s)
+		if mode == 0 {
+			early++
+			k.W.Stat("legacy-subscriber-left-right-after-subscribing")
+			continue
+		}
+		for j, n := 0, k.C.Intn(41); j < n; j++ {
+			write()
+			if mode == 2 && k.C.Chance(1, 2) {
+				select {
+				case <-s.ch:
+				default:
+				}
+			}
+		}
+		// gives up from a goroutine of its own, a few scheduling points after taking one more event
+		gop := k.Go(0, s.name+"-leaves", func() (interface{}, error) {
+			select {
+			case <-s.ch:
+			default:
+			}
+			for j := 0; j < yields; j++ {
+				runtime.Gosched()
+			}
+			cancel()
+			return nil, nil
+		})
+		k.Wait()
+		if !k.IsDone(gop) {
+			k.Failf("C18/legacy-subscribe-hang", "%s could not leave", s.name)
+		}
+		early++
+		k.W.Stat("legacy-subscriber-left-mid-stream")
+		write()
+	}
+	k.Do(0, "close-store", 60, func() (interface{}, error) { return nil, st.Close() })
+	cop := k.Do(0, "close-instance", 120, func() (interface{}, error) { return nil, P.DB.Close() })
+	if !cop.Done {
+		k.Failf("C18/close-hang/close-instance", "Close of the instance did not return")
+	}
+	k.Settle(20*time.Second, 400, nil)
+	k.Tick(15 * time.Second)
+	k.Wait()
+	for _, s := range subs {
+		closed := false
+		for j := 0; j < 4096 && !closed; j++ {
+			select {
+			case _, ok := <-s.ch:
+				closed = !ok
+			default:
+				j = 4096
+			}
+		}
+		if !closed {
+			k.Failf("C18/legacy-channel-not-closed", "15 virtual seconds after %s cancelled its context (and the store and the instance were closed) its channel has not been closed; goroutines left:\n%s", s.name, strings.Join(inBubbleSUTGoroutines(), "\n\n"))
+		}
+	}
+	if left := inBubbleSUTGoroutines(); len(left) > 0 {
+		k.Failf("C18/goroutine-leak/legacy-subscriber", "15 virtual seconds after the subscribers left and the instance was closed %d goroutine(s) created in go-orbit-db packages are still alive:\n%s", len(left), strings.Join(left[:min(3, len(left))], "\n\n"))
+	}
+	k.Notes["subscribers"] = len(subs)
+	k.Notes["nontrivial"] = early > 0
 }
